@@ -33,9 +33,17 @@ META = dict(
                "PInterpreter by differential execution (per-tick node flags incl. child_index, Mark/Block tags, "
                "interrupt map, events).",
     level_note="PARTIAL: the whole-run 'once, in order' statement is proved for sequential methods (C02_partial) and, for "
-               "Marks, for all methods without Alarm/Call macro; for methods with Watches/Alarms/macro calls the "
-               "per-generator order (stack discipline + loop step theorems) is proved but not the uniqueness of the "
-               "generator that runs a scope. The full statement C02_full is FALSE for a Watch nested in an Alarm "
+               "Marks, for all methods without Alarm/Call macro. For Watch / Alarm / Block / macro bodies of ALL methods "
+               "it is proved per invocation and generator: while one loop frame lives (one run of the body by one "
+               "generator, under every interleaving) the lines are entered in index order, each at most once, each "
+               "started at most once (invocation_visits_lines_in_order, no_line_entered_twice_in_one_invocation, "
+               "start_of_a_line_moves_the_position); generators arise only from registrations and, without Alarm / Call "
+               "macro / End block(s), a Watch is registered at most once. ORACLE-ONLY: that one invocation is run by "
+               "exactly one generator in methods with interrupts or macro calls, and 'completed before the next "
+               "starts' beyond 'the previous visit has returned'. The trailing-whitespace bit of the model is the "
+               "analyzer's (modelled in OPM.Model.TrailingWs and compared by its own stream); the oracle decides 'end "
+               "of a scope' from the source text alone, which shows that the code protects only the tail of the whole "
+               "method (a comment closing an inner scope is passed: recorded finding). The full statement C02_full is FALSE for a Watch nested in an Alarm "
                "(C02_counterexample, decide +kernel): the re-armed Alarm runs the Watch body inline while the Watch's own "
                "interrupt runs it too, so lines start twice / out of order within one invocation — reproduced on the "
                "real engine and recorded (findings.d/C02.json), as is 'Wait: d' with d below the 0.1 s correction, which "
@@ -55,7 +63,11 @@ REQUIRED = ["OPM.C02.stack_discipline", "OPM.C02.stack_discipline_step", "OPM.C0
             "OPM.C02.trailing_blank_is_never_completed", "OPM.C02.mark_takes_effect_at_most_once",
             "OPM.C02.sequential_line_starts_at_most_once", "OPM.C02.sequential_lines_in_source_order",
             "OPM.C02.sequential_line_entered_after_scope_started",
-            "OPM.C02.C02_partial", "OPM.C02.C02_counterexample"]
+            "OPM.C02.C02_partial", "OPM.C02.C02_counterexample",
+            "OPM.C02.loop_position_never_decreases", "OPM.C02.invocation_visits_lines_in_order",
+            "OPM.C02.no_line_entered_twice_in_one_invocation", "OPM.C02.start_of_a_line_moves_the_position",
+            "OPM.C02.watch_registered_at_most_once",
+            "OPM.C02.flagged_iff_after_last_instruction_of_every_enclosing_scope"]
 FEATURES = {"mark", "block", "watch", "alarm", "wait", "cmd", "thr", "base", "blank", "engine"}
 HANDOFF = ("UodCommandNode", "EngineCommandNode")
 SHORT_WAIT = 0.1
@@ -507,7 +519,12 @@ def run(ctx: Check) -> int:
                 "empty-bodied opener followed by outdented lines (12%; scope and predecessor of a line are taken from the "
                 "INDENTATION OF THE SOURCE TEXT, not from the parser's tree), 70 ticks, random condition-tag plans; plus "
                 "macros with Blocks called repeatedly (8%, Mark trace = inline expansion) and always-true Alarms with "
-                "Blocks firing repeatedly (5%, every invocation starts the body's lines once in order).")
+                "Blocks firing repeatedly (5%, every invocation starts the body's lines once in order); 30% of the methods "
+                "get comment/blank lines sprinkled in and at the ends of nested scopes, and 'blank/comment line at the end "
+                "of a scope' is decided from the source text (tail of the method / comment closing an inner scope), not "
+                "from has_only_trailing_whitespace. ws stream: the analyzer's has_only_trailing_whitespace bits as "
+                "MethodManager.set_method installs them vs OPM.Model.TrailingWs on the same methods. An ':alarm-nest' key "
+                "is used only when the failing line is the Watch/Alarm nested in an Alarm or lies inside it.")
     rng = ctx.rng
     extra = [{"pcode": pcode_of(gen_acyclic(rng)), "ops": gen_schedule(rng, rng.randrange(15, 45))}
              for _ in range(ctx.n(25, 2000))]
